@@ -42,9 +42,9 @@ class CacheLock:
 
         try:
             self.cache_lock = portalocker.Lock(self.cache_lock_filename, timeout=1)
+            self.cache_lock.acquire()
         except portalocker.exceptions.LockException:
             raise CacheException(f"Could not lock cache using {self.cache_lock_filename}")
-        pass
 
     def __exit__(self, exc_type, exc_value, traceback):
         if self.write_time:
